@@ -275,7 +275,17 @@ impl Gen {
                     let tail = *self.rng.pick(&["", ";2", ";5", ";2;1", ";2;1;2", ";3;4", ":2:1", ":5", ";5;300", ";2;1;2;999"]);
                     s.push_str(&format!("{base}{tail}"));
                 }
-                13 => s.push_str(&self.rng.range(0, 120).to_string()),
+                13 => {
+                    // any number — implemented or not — followed by what looks like the tail of an
+                    // extended colour: only 38 and 48 take such a tail, after every other number the
+                    // next parameters are parameters of their own
+                    let base = match self.rng.below(4) {
+                        0 => *self.rng.pick(&[58u64, 59, 28, 37, 39, 47, 49, 0, 1, 4, 98, 108, 5, 2]),
+                        _ => self.rng.range(0, 120),
+                    };
+                    let tail = *self.rng.pick(&["", "", ";5;1", ";2;3;4;7", ":5:1", ":2:3:4:7", ";2", ";5", ";5;31;1", ";2;1;3;4;31"]);
+                    s.push_str(&format!("{base}{tail}"));
+                }
                 14 => s.push_str(&self.rng.range(0, 255).to_string()),
                 _ => s.push_str(&self.param().unwrap_or(5).to_string()),
             }
@@ -778,6 +788,7 @@ impl Gen {
         if self.rng.chance(1, 9) {
             self.mangle_csi(&mut out);
         }
+        tame_resize(&mut out);
         out
     }
 
@@ -817,6 +828,46 @@ impl Gen {
             r -= *w;
         }
         table[0].0
+    }
+}
+
+/// A resize request `CSI 8 ; r ; c t` asking for more than 300 lines or columns is cut down to 300: with
+/// a resizing callback it would make a screen of tens of thousands of cells per line inside a random
+/// history, which the huge-screen template covers on purpose and the model cannot afford there.
+pub fn tame_resize(out: &mut Vec<u8>) {
+    let mut i = 0;
+    while i + 3 < out.len() {
+        if out[i] == 0x1b && out[i + 1] == b'[' && out[i + 2] == b'8' && (out[i + 3] == b';' || out[i + 3] == b':') {
+            // rewrite every digit run up to the final byte
+            let mut j = i + 3;
+            let mut res: Vec<u8> = out[..j].to_vec();
+            while j < out.len() && !(0x40..=0x7e).contains(&out[j]) {
+                if out[j].is_ascii_digit() {
+                    let st = j;
+                    while j < out.len() && out[j].is_ascii_digit() {
+                        j += 1;
+                    }
+                    let digits = &out[st..j];
+                    let big = digits.len() > 3 || std::str::from_utf8(digits).ok().and_then(|d| d.parse::<u64>().ok()).is_none_or(|v| v > 300);
+                    if big {
+                        res.extend_from_slice(b"300");
+                    } else {
+                        res.extend_from_slice(digits);
+                    }
+                } else {
+                    res.push(out[j]);
+                    j += 1;
+                }
+            }
+            if j < out.len() && out[j] == b't' {
+                res.extend_from_slice(&out[j..]);
+                let resume = res.len() - (out.len() - j) + 1;
+                *out = res;
+                i = resume;
+                continue;
+            }
+        }
+        i += 1;
     }
 }
 
